@@ -21,6 +21,7 @@ import (
 	"sort"
 	"strconv"
 	"strings"
+	"syscall"
 	"time"
 
 	shared "github.com/aquilax/hranoprovod-cli/v3"
@@ -245,6 +246,40 @@ func doChan(kv map[string]string) string {
 		defer close(exited)
 		defer func() { recover() }()
 		if path, ok := kv["path"]; ok {
+			p.ParseFile(path)
+		} else if kv["fifo"] == "1" {
+			// the file is a named pipe fed by a writer: readable, but without a size and not a regular file
+			dir, err := os.MkdirTemp("", "hv-fifo")
+			if err != nil {
+				panic(err)
+			}
+			defer os.RemoveAll(dir)
+			path := dir + "/log.fifo"
+			if err := syscall.Mkfifo(path, 0600); err != nil {
+				panic(err)
+			}
+			go func() {
+				f, err := os.OpenFile(path, os.O_WRONLY, 0)
+				if err != nil {
+					return
+				}
+				defer f.Close()
+				data := []byte(kv["data"])
+				piece := geti(kv, "chunk", 0)
+				if piece <= 0 {
+					piece = len(data) + 1
+				}
+				for len(data) > 0 {
+					n := piece
+					if n > len(data) {
+						n = len(data)
+					}
+					if _, err := f.Write(data[:n]); err != nil {
+						return
+					}
+					data = data[n:]
+				}
+			}()
 			p.ParseFile(path)
 		} else {
 			p.ParseStream(&faultReader{data: []byte(kv["data"]), fault: geti(kv, "fault", -1), chunk: geti(kv, "chunk", 0), jitter: prodJitter})
